@@ -14,7 +14,8 @@ CONSTANTS
   Signals = {%(sigs)s}
   MaxStops = %(ms)d
   Behaviours <- MCBehaviours
-INVARIANTS TypeOK OncePerEvent EventsAreFailures Contained StopsResumed WaitsBounded ChildNotLost AllRun RunCounts
+  Reps = {%(reps)s}
+INVARIANTS TypeOK OncePerEvent EventsAreFailures Contained ChildFailuresCount StopsResumed WaitsBounded ChildNotLost AllRun RunCounts
 %(live)s
 CHECK_DEADLOCK FALSE
 """
@@ -31,6 +32,7 @@ CONSTANTS
   Behaviours = {}
   Bursts = {%(bursts)s}
   Faults = %(faults)s
+  Reps = {%(reps)s}
 INVARIANTS Dump
 CHECK_DEADLOCK FALSE
 """
@@ -49,6 +51,7 @@ CONSTANTS
 CHECK_DEADLOCK FALSE
 """
 PLACES = ["setup", "body", "teardown", "pre", "post"]
+REPS = ["pre", "post", "both"]          # plugin actions that report a failure about the test (harness: ReportPlugin)
 IGN = {17, 18, 23, 28}
 STOP = {19, 20, 21, 22}
 
@@ -65,7 +68,8 @@ def beh_to_exec(h):
         elif st["op"] in ("fork", "addtest"):
             ex.append([st["op"], st["a"]])
         elif st["op"] == "teststart":
-            ex.append(["teststart", st["a"]])
+            # b = failures reported by plugin actions about the test (1: by the pre or by the post action, alternating)
+            ex.append(["teststart", st["a"]] + ([0, "body", ["none", ["pre", "post"][len(ex) % 2], "both"][st["b"]]] if st["b"] else []))
         elif st["op"] == "wait":
             ex.append(["wait", st["a"], st["b"]])
         else:
@@ -204,7 +208,7 @@ def random_stub(rng, K):
         if place == "child":
             return (), random_outcomes(rng, K)
         if place == "runner":
-            return (rng.choice(["pass", "pass", "fail"]), 0, rng.choice(PLACES)), []
+            return (rng.choice(["pass", "pass", "fail"]), 0, rng.choice(PLACES), rng.choice(["none", "none"] + REPS)), []
         return (), []
     return random_history(rng, "stub", per_test, ntests=(1, 8))
 
@@ -229,6 +233,23 @@ def real_sweeps(rng, quick):
     for p in PLACES:
         allb += [("fail", 0, p), ("pass", 0, p)]
     allb += [("stop-twice", 0, "body"), ("stop-twice", 0, "teardown")]
+    # the same ways of living and dying, with failures reported by a plugin's pre action, post action or both (the test's own checks
+    # passing, or failing as well): a child that reaches its end exits with 1 whoever recorded the failure
+    withrep = []
+    for p in PLACES:
+        for r in REPS:
+            withrep += [("pass", 0, p, r), ("fail", 0, p, r)]
+    for s in sorted(IGN | STOP):
+        for j, p in enumerate(PLACES if not quick else [PLACES[s % 5]]):
+            withrep += [("signal", s, p, REPS[(s + j) % 3]), ("signal-then-fail", s, p, REPS[(s + j + 1) % 3])]
+    for s in sorted(set(range(1, 32)) - IGN - STOP):
+        for p in (PLACES if not quick else [PLACES[(s + 1) % 5]] if s % 3 == 0 else []):
+            withrep.append(("signal", s, p, REPS[s % 3]))
+    for c in ([0, 1, 2, 255, 256] + ([] if quick else rng.sample(range(3, 255), 20))):
+        for j, p in enumerate(PLACES if not quick else [PLACES[c % 5], PLACES[(c + 2) % 5]]):
+            withrep.append(("exit", c, p, REPS[(c + j) % 3]))
+    withrep += [("stop-twice", 0, "body", r) for r in REPS]
+    allb += withrep
     rng.shuffle(allb)
     pool = list(allb)
 
@@ -237,13 +258,13 @@ def real_sweeps(rng, quick):
             # every dying test is followed by tests that must still run; a passing test closes each run
             return (pool.pop() if pool and i < n - 1 else ("pass", 0, "body")), []
         if place == "runner":       # a run without the option: outside C11, the test only passes or fails a check
-            return (rng.choice(["pass", "pass", "fail"]), 0, rng.choice(PLACES)), []
-        return rng.choice(NEVER), []   # an ignored test that is not run: its body would be fatal, and is never executed
+            return (rng.choice(["pass", "pass", "fail"]), 0, rng.choice(PLACES), rng.choice(["none", "none"] + REPS)), []
+        return rng.choice(NEVER) + (rng.choice(["none"] + REPS),), []   # an ignored test that is not run: its body would be fatal, and is never executed
 
     execs = []
     while pool:
         execs.append(random_history(rng, "real", per_test, ntests=(4, 10), always_sep=0.9))
-    return execs, len(allb)
+    return execs, len(allb), len(withrep)
 
 
 def run(ctx):
@@ -328,6 +349,9 @@ def run(ctx):
             tno = sum(1 for e in lines[:rel + 1] if e.get("op") == "teststart")
             tl = [l for l in ex if l[0] == "teststart"]
             t = tl[tno - 1] if 0 < tno <= len(tl) else ["teststart", "?", "?", "?"]
+            t = list(t) + [""] * (5 - len(t))
+            if t[4] not in ("", "none"):          # a plugin action reports a failure about the test as well
+                t[3] = "%s+plugin-report-%s" % (t[3], t[4])
             observed = lines[rel] if 0 <= rel < len(lines) else None
             tk = ([e for e in lines[:rel + 1] if e.get("op") == "teststart"] or [{}])[-1].get("kind", "plain")
             key = "reject:real:%s%s:%s:%s:at-%s" % ("" if tk == "plain" else tk + ":", t[1], t[2], t[3], (observed or {}).get("op"))
@@ -382,10 +406,11 @@ def run(ctx):
     # ---- leg 1: the parent's design has the property for every outcome sequence (safety + termination), bound taken from the code
     # (the first configurations explore the status words of one separate-process run of plain tests; "registry" explores the histories
     # of the registry - kinds of tests, both options in every order, several runs with changes in between - over a small set of outcomes)
-    ONE = {"mr": 1, "kinds": PLAIN, "opts": SEP}
+    # Reps: failures reported by plugin actions about a test (0 or 1 decide the child's verdict; 2 only lengthens the list in the runner)
+    ONE = {"mr": 1, "kinds": PLAIN, "opts": SEP, "reps": "0, 1"}
     LIVE = dict(ONE, spec="FairSpec", live="PROPERTY Terminates")
-    SAFE = dict(ONE, spec="Spec", live="")
-    REG = {"spec": "FairSpec", "live": "PROPERTY Terminates EveryRunEnds", "kinds": BOTH, "opts": SEPRI}
+    SAFE = dict(ONE, spec="Spec", live="", reps="0, 1, 2")
+    REG = {"spec": "FairSpec", "live": "PROPERTY Terminates EveryRunEnds", "kinds": BOTH, "opts": SEPRI, "reps": "0" if quick else "0, 1"}
     allsig = ", ".join(map(str, range(1, 32)))
     if quick:
         mcs = [("two-tests", dict(LIVE, rb=RB, mt=2, exits="0, 1", sigs="11, 19", ms=1)),
@@ -409,15 +434,15 @@ def run(ctx):
     # ---- leg 2: outcome sequences generated by TLC (and systematic sweeps), fed to the real parent through the fork/waitpid seams
     nontriv = set()
     bursts = "0, 1, %d, %d" % (RB + 1, RB + 2)
-    ONE = {"mr": 1, "kinds": PLAIN, "opts": SEP, "faults": "TRUE"}
+    ONE = {"mr": 1, "kinds": PLAIN, "opts": SEP, "faults": "TRUE", "reps": "0"}
     gens = [
         ("bfs1", dict(ONE, rb=RB, mt=1, exits="0, 1, 255", sigs="11, 19", ms=1 if quick else 2, bursts=bursts), None, None),
         ("bfs2", dict(ONE, rb=RB, mt=2, exits="0, 1", sigs="11", ms=1, bursts="0, %d" % (RB + 2) if quick else bursts), None, None),
         # every history of the registry: tests of both kinds, both options set in every order, runs, changes between runs (small outcome alphabet)
         ("registry", {"rb": RB, "mt": 2, "mr": 2 if quick else 3, "kinds": BOTH, "opts": SEPRI, "exits": "0, 1", "sigs": "", "ms": 0, "bursts": "0",
-                      "faults": "FALSE"}, None, None),
+                      "faults": "FALSE", "reps": "0" if quick else "0, 1"}, None, None),
         ("sim", {"rb": RB, "mt": 6, "mr": 3, "kinds": BOTH, "opts": SEPRI, "exits": "0, 1, 2, 127, 255", "sigs": ", ".join(map(str, range(1, 32))), "ms": 3,
-                 "bursts": "0, 0, 1, 2, %d, %d" % (RB, RB + 2), "faults": "TRUE"},
+                 "bursts": "0, 0, 1, 2, %d, %d" % (RB, RB + 2), "faults": "TRUE", "reps": "0, 0, 1, 2"},
          10 if quick else 100, 600),
     ]
     for lab, c, sim, depth in gens:
@@ -439,13 +464,13 @@ def run(ctx):
     nontriv.update(json.dumps(e) for e in execs)
 
     # ---- leg 3: real forks: children that die in every way, at every place; the kernel's answers are logged and validated
-    execs, nbeh = real_sweeps(ctx.rng, quick)
+    execs, nbeh, nrep = real_sweeps(ctx.rng, quick)
     ctx.sample({"source": "real children", "execution": ["\t".join(map(str, l)) for l in execs[0][:10]]})
     conform_real("real", execs)
     ntests = sum(1 for e in execs for l in e if l[0] == "teststart")
     ctx.evaluations += ntests
     nontriv.update(json.dumps(e) for e in execs)
-    ctx.notes["real_children"] = {"tests_started": ntests, "dying_behaviours": nbeh, "registry_histories": len(execs),
+    ctx.notes["real_children"] = {"tests_started": ntests, "dying_behaviours": nbeh, "of_them_with_plugin_reported_failures": nrep, "registry_histories": len(execs),
                                   "runs": sum(1 for e in execs for l in e if l[0] == "begin"),
                                   "histories_with_run_ignored": sum(1 for e in execs if any(l[0] == "setri" for l in e)),
                                   "histories_with_tests_added_between_runs": sum(1 for e in execs if any(l[0] == "addtest" and any(m[0] == "end" for m in e[:i]) for i, l in enumerate(e)))}
@@ -455,6 +480,8 @@ def run(ctx):
              "2-3 runs with tests added / options set between runs; simulation up to 6 tests and 3 runs over all signals) and systematic sweeps (every exit status, every signal as killer and as stopper, "
              "EINTR runs of every length around the bound, seeded random mixes), fed to the real parent code through the PlatformSpecificFork/WaitPid seams; "
              "(b) real forked children that raise each signal 1..31, _exit statuses, fail a check, stop themselves, in setup/body/teardown/plugin pre/post, "
+             "each also combined with failures that a second installed plugin reports to the TestResult in its pre action, post action or both "
+             "(test's own checks passing or failing): a child that reaches its end exits 1 whoever recorded the failure; "
              "spread over seeded random registry histories (ignored tests with and without run-ignored, several runs, tests added between runs); the log says for every test whether "
              "any of its code executed in the runner process; "
              "every log is validated by TLC; distinct = distinct scripts; non-trivial = contains an outcome other than a clean exit",
